@@ -49,7 +49,8 @@ ELEMENT_KINDS = ["wire", "port", "port0", "tb", "sp", "rr", "wrr", "drr", "wfq",
 
 # ---- kind 'pipe': linear pipelines of 2-3 REAL elements that have an interface adapter (coq/Elem/Adapt*.v), driven by
 # the elem_common harness and replayed in the COMPOSITE Coq model (coq/Elem/Compose.v) --------------------------------
-PIPE_ELEMS = ["wire", "port", "port0", "tb", "sp", "rr", "wrr"]
+PIPE_ELEMS = ["wire", "port", "port0", "tb", "sp", "rr", "wrr", "wfq", "vc", "drr"]
+PIPE_SCHEDS = ("sp", "rr", "wrr", "wfq", "vc", "drr")
 PIPE_FLOWS = (0, 1, 2)
 PIPE_SIZES = (64, 128, 256, 512)
 PIPE_DELAYS = [Fraction(0), Fraction(1, 4), Fraction(1, 2), Fraction(1), Fraction(2)]
@@ -63,19 +64,30 @@ class PipeHarness(ec.Harness):
 
     def __init__(self, env):
         super().__init__(env)
-        self.scheds = {}            # stage index -> scheduler object
+        self.scheds = {}            # stage index -> (scheduler with per-class stores, label prefix "f:" (SP/RR/WRR) | "s:" (DRR))
 
     def classify(self, ev):
         res = getattr(ev, "resource", None)
         if res is not None:
             tn = type(ev).__name__
-            for k, s in self.scheds.items():
+            for k, (s, pfx) in self.scheds.items():
                 if res is s.packets_available:
                     return [tn, "tok@%d" % k]
                 for f, st in list(s.stores.items()):
                     if st is res:
-                        return [tn, "f:%d@%d" % (f, k)]
+                        return [tn, "%s%d@%d" % (pfx, f, k)]
         return super().classify(ev)
+
+    @staticmethod
+    def wrap_send_packet(e, k):
+        """the send_packet children of the scheduler of stage k are named send_packet@k"""
+        orig = e.send_packet
+
+        def send_packet(pkt, orig=orig, k=k):
+            g = orig(pkt)
+            g.__name__ = "send_packet@%d" % k
+            return g
+        e.send_packet = send_packet
 
     def _do_put(self, element, uid):
         pkt = self.packets[uid]
@@ -125,9 +137,10 @@ class GenSinkPart:
     serves = ["C08"]
     # the order matters: the element parts' action terms use unqualified constructor names (Port.PGet / SchedBase.PGet,
     # OForward of Port / Bucket / SchedBase, the record field `rate` of Bucket / SchedBase); GenSink last for gen/sink terms
-    coq_imports = ["From ONL Require Import Base.Cmp Elem.Packet Elem.StoreQ Elem.SchedBase Elem.SP Elem.RR Elem.WRR Elem.Bucket "
+    coq_imports = ["From ONL Require Import Base.Cmp Elem.Packet Elem.StoreQ Elem.HeapList Elem.WFQServer Elem.WFQ Elem.VC Elem.DRR "
+                   "Elem.SchedBase Elem.SP Elem.RR Elem.WRR Elem.Bucket "
                    "Elem.Wire Elem.Port Elem.Iface Elem.Compose Elem.AdaptWire Elem.AdaptPort Elem.AdaptBucket Elem.AdaptSched "
-                   "Elem.GenSink."]
+                   "Elem.AdaptSrv Elem.AdaptDRR Elem.GenSink."]
     props_files = {"C08": ["Props/C08_GenSink.v", "Props/C08_Net.v", "Props/C08_Pipe.v"]}
     weight = 2
     nontrivial_rule = {"C08": "gen: scripted inter-arrival/size draws incl. zero gaps, finite and infinite finish, initial delays; "
@@ -386,6 +399,27 @@ class GenSinkPart:
             elif el == "tb":
                 stages.append({"el": "tb", "rate": rng.choice([512, 1024, 2048, 8192]), "bsize": rng.choice([0, 64, 128, 256, 1024]),
                                "peak": rng.choice([None, None, 0, 4096, 16384])})
+            elif el in ("wfq", "vc"):
+                # flows 0-2 on one or two classes; WFQ weights equal powers of two so that every weight sum the code divides by
+                # is a power of two (exact floats); VC vticks dyadic
+                f2c = rng.choice([{0: 5, 1: 5, 2: 5}, {0: 4, 1: 7, 2: 7}, {0: 0, 1: 1, 2: 1}, {0: 3, 1: 3, 2: 6}])
+                cl = sorted(set(f2c.values()))
+                if el == "wfq":
+                    wt = rng.choice([1, 2, 4])
+                    classes = {str(c): wt for c in cl}
+                else:
+                    classes = {str(c): cf.qjson(rng.choice([Fraction(1, 4), Fraction(1, 2), Fraction(1), Fraction(3, 2)])) for c in cl}
+                stages.append({"el": el, "rate": rng.choice([512, 1024, 4096]), "classes": classes,
+                               "f2c": {str(f): c for f, c in f2c.items()}})
+            elif el == "drr":
+                f2c = rng.choice([[[0, 0], [1, 1], [2, 2]], [[0, 3], [1, 3], [2, 4]], [[0, 1], [1, 0], [2, 0]]])
+                cl = []
+                for _, c in f2c:
+                    if c not in cl:
+                        cl.append(c)
+                rng.shuffle(cl)
+                stages.append({"el": "drr", "rate": rng.choice([2048, 4096, 16384]), "weights": [[c, rng.choice([1, 1, 2, 3, 4])] for c in cl],
+                               "f2c": f2c})
             else:
                 if el == "rr":
                     classes = [[f, 1] for f in PIPE_FLOWS]
@@ -401,7 +435,9 @@ class GenSinkPart:
         from props.part_port import PART as PP
         from props.part_bucket import PART as BP
         from props.part_mq import PART as MP
-        return {"wire": WP, "port": PP, "tb": BP, "sp": MP, "rr": MP, "wrr": MP}
+        from props.part_wfq import PART as FP
+        from props.part_drr import PART as DP
+        return {"wire": WP, "port": PP, "tb": BP, "sp": MP, "rr": MP, "wrr": MP, "wfq": FP, "vc": FP, "drr": DP}
 
     @staticmethod
     def _pipe_subcase(case, st):
@@ -415,6 +451,10 @@ class GenSinkPart:
                     "eid": st["eid"], "uniforms": []}
         if el == "tb":
             return {"kind": "tb", "workload": w, "rate": st["rate"], "bsize": st["bsize"], "peak": st["peak"], "t0": "0"}
+        if el in ("wfq", "vc"):
+            return {"kind": el, "workload": w, "rate": st["rate"], "classes": st["classes"], "f2c": st["f2c"], "exact": True}
+        if el == "drr":
+            return {"kind": "drr", "workload": w, "rate": st["rate"], "weights": st["weights"], "f2c": st["f2c"]}
         return {"kind": el, "sched": el, "rate": st["rate"], "classes": st["classes"], "cmap": None, "workload": w, "monitor": None}
 
     def _run_pipe(self, case):
@@ -474,6 +514,9 @@ class GenSinkPart:
                 final.append({"received": e.packets_rec, "store": len(e.store.items), "uniforms": unis.n})
             elif st["el"] == "tb":
                 final.append({"received": e.packets_received, "sent": e.packets_sent, "store": len(e.store.items)})
+            elif st["el"] == "drr":
+                final.append({"received": e.packets_received, "total": e.total_packets,
+                              "quantum": [[c, ec.qs(e.quantum[c])] for c, _ in st["weights"] if c in e.quantum]})
             else:
                 final.append({"received": e.packets_received, "total": e.total_packets})
         return {"log": log, "raised": h.raised, "exhausted": h.exhausted, "final": final}
@@ -498,6 +541,45 @@ class GenSinkPart:
             from onl.netdev.token_bucket import TokenBucket
             e = TokenBucket(env, rate=num(st["rate"]), bucket_size=st["bsize"], peak=None if st["peak"] is None else num(st["peak"]))
             smp = (lambda: [e.packets_received, e.packets_sent, ec.qs(e.current_bucket), ec.qs(e.update_time), len(e.store.items)])
+        elif el in ("wfq", "vc"):
+            tbl = {int(f): int(c) for f, c in st["f2c"].items()}
+            if el == "wfq":
+                from onl.scheduler.wfq import WFQ
+                e = WFQ(env, st["rate"], {int(c): int(v) for c, v in st["classes"].items()}, flow2class=lambda f: tbl.get(f, f))
+            else:
+                from onl.scheduler.virtual_clock import VC
+                e = VC(env, st["rate"], {int(c): ec.T(v) for c, v in st["classes"].items()}, flow2class=lambda f: tbl.get(f, f))
+            cls = sorted(int(c) for c in st["classes"])
+            flows = sorted(tbl)
+            PipeHarness.wrap_send_packet(e, k)
+
+            def smp():
+                cur = e.current_packet
+                cur = getattr(cur, "uid", -2) if cur is not None else -1
+                per = [[f, e.queue_count.get(f, 0), e.queue_byte_size.get(f, 0)] for f in flows]
+                if el == "wfq":
+                    extra = {"vtime": ec.qs(e.vtime), "last": ec.qs(e.last_time), "active": sorted(e.active_set),
+                             "fin": [[c, ec.qs(e.finish_times.get(c, 0))] for c in cls]}
+                else:
+                    extra = {"aux": [[c, ec.qs(e.aux_vc.get(c, 0))] for c in cls]}
+                return [cur, len(e.store.items), e.packets_received, per, extra]
+        elif el == "drr":
+            from onl.scheduler.drr import DRR
+            tbl = {f: c for f, c in st["f2c"]}
+            e = DRR(env, st["rate"], {c: wt for c, wt in st["weights"]}, flow2class=lambda f: tbl.get(f, f))
+            cls = [c for c, _ in st["weights"]]
+            flows = sorted(tbl)
+            h.scheds[k] = (e, "s:")
+            PipeHarness.wrap_send_packet(e, k)
+
+            def smp():
+                cur = e.current_packet
+                return [[[c, ec.qs(e.deficit[c])] for c in cls],
+                        [[f, e.queue_count.get(f, 0), e.queue_byte_size.get(f, 0)] for f in flows],
+                        [[c, getattr(e.head_of_line[c], "uid", -1) if c in e.head_of_line else None] for c in cls],
+                        None if cur is None else getattr(cur, "uid", -1),
+                        [[c, len(e.stores[c].items) if c in e.stores else 0] for c in cls],
+                        len(e.packets_available.items), e.packets_received, e.total_packets]
         else:
             classes = st["classes"]
             if el == "sp":
@@ -510,14 +592,8 @@ class GenSinkPart:
                 from onl.scheduler.wrr import WRR
                 e = WRR(env, st["rate"], {f: wt for f, wt in classes})
             flows = sorted({f for f, _ in classes})
-            h.scheds[k] = e
-            orig = e.send_packet
-
-            def send_packet(pkt, orig=orig, k=k):
-                g = orig(pkt)
-                g.__name__ = "send_packet@%d" % k
-                return g
-            e.send_packet = send_packet
+            h.scheds[k] = (e, "f:")
+            PipeHarness.wrap_send_packet(e, k)
 
             def smp():
                 q = [[f, e.queue_count.get(f, 0), e.queue_byte_size.get(f, 0)] for f in flows]
@@ -527,7 +603,7 @@ class GenSinkPart:
                         e.total_packets, [], stl]
         proc = getattr(e, "action", None) or getattr(e, "proc")
         proc._generator.__name__ = "run@%d" % k
-        if el in ("wire", "port", "tb"):
+        if el in ("wire", "port", "tb", "wfq", "vc"):
             h.watch_store("store@%d" % k, e.store)
         return e, smp
 
@@ -600,6 +676,13 @@ class GenSinkPart:
             return f"(port_elem {parts['port']._cfg_term(sc)} {q0})"
         if st["el"] == "tb":
             return f"(tb_elem {parts['tb']._cfg_term(sc)} {q0})"
+        if st["el"] == "wfq":
+            return f"(wfq_elem {parts['wfq']._cfg(sc)})"
+        if st["el"] == "vc":
+            return f"(vc_elem {parts['vc']._cfg(sc)})"
+        if st["el"] == "drr":
+            from props import part_drr
+            return f"(drr_elem {part_drr.cfg_term(sc)} {q0})"
         return f"(mq_elem {parts[st['el']]._cfg_term(sc)})"
 
     def _pipe_terms(self, case, obs):
@@ -616,8 +699,15 @@ class GenSinkPart:
             sc = self._pipe_subcase(case, st)
             part = parts[st["el"]]
             o = {"log": sub[k], "raised": None, "exhausted": obs["exhausted"]}
+            if st["el"] == "drr":
+                from props import part_drr
+                o["quantum"] = obs["final"][k]["quantum"]
+                acts, e2 = part_drr.actions(sc, o)
+            elif st["el"] == "tb":
+                acts, e2 = part._obs_term(sc, o)
+            else:
+                acts, e2 = part._actions(sc, o)
             stage_terms.append("(" + part.agree_term(sc, o) + ")")
-            acts, e2 = (part._obs_term(sc, o) if st["el"] == "tb" else part._actions(sc, o))
             if acts is None:
                 return None, None, f"stage {k}: {e2}"
             if len(acts) != len(sub[k]):
